@@ -33,10 +33,17 @@ META = {
             "index = pos mod size) answers every push/pop sequence exactly like that bounded FIFO across any number of "
             "wrap-arounds (sequential executions only), the ring model is compared with the real MPMCBoundedQueue "
             "template on fill/drain sequences, and long-lived validators with small configured limits (queue capacity "
-            "4..16, >= 5 wrap-arounds per worker) are run like every other case.",
+            "4..16, >= 5 wrap-arounds per worker) are run like every other case. C16_qcap_fits_limits: the capacity the "
+            "code derives (upper_power_of_two of maxWorkerQueueSize(), whose sum expression is regenerated from "
+            "alt_chain_params.hpp into Gen/ValidatorParams.v) suffices for every PopData within the count limits; PopData "
+            "FULL to the limits (VbkBlocks, hand-built VTBs, ATVs) is checked with 1..4 workers and a slow hook. "
+            "C16_checked_flags_transparent: with `checked` set only after complete success, re-checking the same "
+            "object, a copy, or a fresh deserialisation gives the sequential verdict; every harness round does exactly "
+            "that (3x same object, copy, fresh bytes) and planted invalid payloads include valid-tx/wrong-merkle-path "
+            "ATVs and VTBs and wrong-merkle-root blocks of proof.",
     "note": "Honest limit: the theorems cover the scheduling logic of the model for all schedules; data-race freedom and "
             "memory safety of the compiled C++ (thread pool, MPMC queue, futures) are observed by sanitizers, not proved. "
-            "VTB payloads are not generated (context VbkBlocks and ATVs are). VbkBlocks carry precalculated hashes in "
+            "VTBs are hand-built (no Bitcoin context blocks; the header hook with delays/trace runs for ATVs only). VbkBlocks carry precalculated hashes in "
             "the sanitizer variants (vProgPoW costs ~100 s per epoch under TSan and is slow at -O0 under ASan); the rel "
             "variant computes real hashes on the workers. Trusted: Coq kernel, extraction, OCaml driver, C++ harness, "
             "Python trace-to-schedule conversion.",
@@ -54,14 +61,18 @@ def case_line(c):
                                                     c.get("limits", "0"))
 
 
-def mk_spec(r, nctx, natv, bad_pos):
-    """bad_pos: set of positions (0-based over nctx+natv) that are invalid"""
+def mk_spec(r, nctx, natv, bad_pos, nvtb=0):
+    """context blocks, then VTBs, then ATVs; bad_pos: positions (0-based over all) that are invalid.
+    Invalid kinds: x (VbkBlock below fork height), u (VTB, valid tx+signature, wrong merkle path), b (ATV rejected
+    by the header hook), c (ATV, valid tx+signature, wrong merkle path), e (ATV, wrong merkle root in block of proof)"""
     s = ""
-    for i in range(nctx + natv):
+    for i in range(nctx + nvtb + natv):
         if i < nctx:
             s += "x" if i in bad_pos else "v"
+        elif i < nctx + nvtb:
+            s += "u" if i in bad_pos else "t"
         else:
-            s += "b" if i in bad_pos else "a"
+            s += r.choice("bce") if i in bad_pos else "a"
     return s
 
 
@@ -83,11 +94,13 @@ def gen_cases(ctx, tier):
                 w = r.choice([1, 2, 3, 4, 8, 16])
                 delay = r.choice([0, 30, 300, 1500]) if n <= 24 else r.choice([0, 30, 200])
                 # ATV-only (trace is replayed on the model) or mixed context blocks + ATVs
+                nvtb = 0
                 if r.chance(1, 2):
                     nctx = 0
                 else:
                     nctx = r.range(0, n)
-                spec = mk_spec(r, nctx, n - nctx, bad)
+                    nvtb = r.range(0, min(3, n - nctx))
+                spec = mk_spec(r, nctx, n - nctx - nvtb, bad, nvtb)
                 add(w, delay, spec, dup=1 if (pname == "none" and r.chance(1, 2)) else 0,
                     stop=r.choice([0, 0, 1, 2]), rounds=r.choice([1, 1, 2, 3]), tag=pname)
     # every worker count once with a schedule-hostile shape: first invalid, long tail, large delays
@@ -109,6 +122,20 @@ def gen_cases(ctx, tier):
         cases.append({"id": "k%d" % (len(cases) + 1), "w": w, "seed": r.below(1 << 30), "delay": r.choice([0, 0, 30]),
                       "spec": mk_spec(r, nctx, natv, bad), "dup": 0, "stop": st, "rounds": rounds, "realhash": 0,
                       "limits": lim, "tag": "long-lived-cap%d" % cap})
+    # PopData FULL to the configured limits (all three kinds maxed), slow header hook, 1..4 workers: with one worker
+    # every task lands in one queue, whose capacity the validator derives from the same limits
+    fulls = [("2/1/1", 2, 1, 1), ("30/1/1", 30, 1, 1), ("1/1/30", 1, 1, 30), ("4/2/2", 4, 2, 2)]
+    if tier == "thorough":
+        fulls += [("60/2/2", 60, 2, 2), ("8/4/4", 8, 4, 4), ("2/30/2", 2, 30, 2), ("1000/200/200", 1000, 200, 200)]
+    for (lim, la, lv, lb) in fulls:
+        for w in ((1, 2) if tier == "quick" else (1, 2, 3, 4)):
+            n = la + lv + lb
+            if n > 200 and w > 2:
+                continue
+            bad = set() if r.chance(1, 2) else {r.below(n)}
+            cases.append({"id": "k%d" % (len(cases) + 1), "w": w, "seed": r.below(1 << 30),
+                          "delay": 300 if n <= 200 else 20, "spec": mk_spec(r, lb, la, bad, lv), "dup": 0, "stop": 0,
+                          "rounds": 1, "realhash": 0, "limits": lim, "tag": "full-to-limits"})
     # the real MPMCBoundedQueue template against the ring model (proved to refine a bounded FIFO): fill/drain phases
     # crossing many wrap-arounds
     for size in ((2, 4, 8) if tier == "quick" else (2, 4, 8, 16, 64)):
@@ -142,11 +169,12 @@ def rel_cases(ctx, tier):
     return out
 
 
-def build_schedule(case, traces):
+def build_schedule(case, traces, verdicts):
     """turn the observed per-round (worker, payload) events into a model schedule; None if not applicable"""
     spec = case["spec"]
-    if case["dup"] or not spec or case["stop"] == 3 or any(ch in "vxV" for ch in spec):
+    if case["dup"] or not spec or case["stop"] == 3 or any(ch in "vxVtu" for ch in spec):
         return None
+    vds = verdicts.split(";")
     n = len(spec)
     w = case["w"]
     labels = []
@@ -158,6 +186,8 @@ def build_schedule(case, traces):
             return ["BAD-TRACE"]
         ev = [tuple(int(x) for x in e.split(":")) for e in parts[2].split(",") if e]
         bits = "".join("1" if ch == "a" else "0" for ch in spec)
+        if ri >= len(vds):
+            return ["BAD-TRACE"]
         labels.append("C%s/0" % bits)
         labels += ["P"] * n
         queues = [[j for j in range(n) if (nextw + j) % w == q] for q in range(w)]
@@ -184,6 +214,20 @@ def build_schedule(case, traces):
                 labels += ["p%d" % i]
                 break
         labels += ["W"] * (n + 1)
+        # the harness then checks a second PopData with the same content three times, a copy and a fresh
+        # deserialisation on the same validator: a valid PopData is posted 2 more times (its `checked` flag
+        # short-cuts the rest), an invalid one 5 more times; replay them as calls that run to completion
+        extra = 2 if vds[ri] == "valid" else 5
+        for _ in range(extra):
+            labels.append("C%s/0" % bits)
+            labels += ["P"] * n
+            # every task is popped by its home worker, in order
+            nw = nextw + n
+            for j in range(n):
+                i = (nw + j) % w
+                labels += ["p%d" % i, "r%d" % i, "f%d" % i]
+            labels += ["W"] * (n + 1)
+            nextw += n
         nextw += n
         if case["stop"] in (1, 2) and ri + 1 < len(rounds):
             labels += ["Q"] + ["J"] * w + ["S%d" % w]
@@ -310,7 +354,7 @@ def run(ctx):
                 agreed += 1
             tr = res.get(i + ".t")
             if tr is not None and variant != "rel":
-                labels = build_schedule(c, tr)
+                labels = build_schedule(c, tr, res.get(i, ""))
                 if labels is not None:
                     replay_lines.append((i, "%s.r replay %d 0 %s" % (i, c["w"], " ".join(labels))))
         if replay_lines:
@@ -322,7 +366,8 @@ def run(ctx):
             for i, _ in replay_lines:
                 traces_tried += 1
                 got = rres.get(i + ".r", "")
-                want = "ok " + res.get(i, "") + " held=0"
+                want = "ok " + ";".join(";".join([v] * (3 if v == "valid" else 6))
+                                        for v in res.get(i, "").split(";")) + " held=0"
                 if got == want:
                     traces_ok += 1
                 else:
